@@ -46,11 +46,11 @@ theorem ylySetpos_reseed (r : Rule) (ds p x : Inst) (hr : WfRule r) (hf : r.freq
 
 /-- C01 across a refill, soundness (YEARLY) -/
 theorem fillYly_sound_reseed (r : Rule) (ds p : Inst) (n : Nat) (l : List Inst) (hr : WfRule r) (hp : WfInst p)
-    (hs : SeedOk r p) (hn : n ≤ 64) (hy : 1901 ≤ p.y) (hsup : YlySup r) (hsh : r.shift = 0)
+    (hn : n ≤ 64) (hy : 1901 ≤ p.y) (hsup : YlySup r) (hsh : r.shift = 0)
     (hf : r.pos ≠ [] → r.freq = 1) (hseed : YearlyInst r ds p) (h : fillYly r p n = some l) :
     ∀ x ∈ l, YearlyInst r ds x ∧ SetposOk r ds x := by
   intro x hx
-  obtain ⟨h1, h2⟩ := fillYly_sound_all r p n l hr hp hs hn hy hsup hsh hf h x hx
+  obtain ⟨h1, h2⟩ := fillYly_sound_all r p n l hr hp hn hy hsup hsh hf h x hx
   obtain ⟨b1, ⟨k, hk⟩, _⟩ := (ylyInst_iff r p x).1 h1
   have hidx : p.y ≤ x.y := by rw [hk]; omega
   refine ⟨(ylyInst_reseed r ds p x hr hseed hidx).1 h1, ?_⟩
@@ -60,7 +60,7 @@ theorem fillYly_sound_reseed (r : Rule) (ds p : Inst) (n : Nat) (l : List Inst) 
 
 /-- C01 across a refill, completeness (YEARLY) -/
 theorem fillYly_complete_reseed (r : Rule) (ds p : Inst) (n : Nat) (l : List Inst) (hr : WfRule r) (hp : WfInst p)
-    (hs : SeedOk r p) (hn : n ≤ 64) (hy : 1901 ≤ p.y) (hsup : YlySup r) (hsh : r.shift = 0)
+    (hn : n ≤ 64) (hy : 1901 ≤ p.y) (hsup : YlySup r) (hsh : r.shift = 0)
     (hf : r.pos ≠ [] → r.freq = 1) (hseed : YearlyInst r ds p) (h : fillYly r p n = some l)
     (x : Inst) (hx : YearlyInst r ds x) (hsp : SetposOk r ds x) (hge : absOf p ≤ absOf x)
     (hle : ltP r.untl x = false) (hxy : x.y ≤ 2099) :
@@ -78,6 +78,6 @@ theorem fillYly_complete_reseed (r : Rule) (ds p : Inst) (n : Nat) (l : List Ins
     by_cases hpos : r.pos = []
     · exact Or.inl hpos
     · exact (ylySetpos_reseed r ds p x hr (hf hpos) hseed hidx).2 hsp
-  exact fillYly_complete_all r p n l hr hp hs hn hy hsup hsh hf h x hx' hsp' hge hle hxy
+  exact fillYly_complete_all r p n l hr hp hn hy hsup hsh hf h x hx' hsp' hge hle hxy
 
 end Echse.Lemmas.RrYlyRfc
